@@ -92,6 +92,13 @@ def scenarios() -> list[dict]:
     add("wt_normalize_crlf", "write_tool", {T: {"text": OLD.replace("\n", "\r\n"), "mode": 0o640}}, {})
     add("wt_changes_noop_crlf", "write_tool", {T: {"text": OLD.replace("\n", "\r\n"), "mode": 0o640}}, {"changes": {}})
     add("at_overwrite_same_crlf", "atomic", crlf_f, {"content": NEW})
+    # text that cannot be encoded (a lone surrogate survives parse and emit): the write fails with a NON-OSError after the
+    # temp file exists - an error return must still leave no temp file, no created directory, the target as it was
+    SUR = '===DOC===\nA::"x\udc80y"\n===END===\n'
+    add("at_new_unencodable", "atomic", {}, {"content": SUR}, "error:")
+    add("at_overwrite_unencodable", "atomic", old_f, {"content": SUR}, "error:")
+    add("at_missing_parent_unencodable", "atomic", {}, {"content": SUR}, "error:", target="sub/dir/x.oct.md")
+    add("wt_overwrite_unencodable", "write_tool", old_f, {"content": SUR}, "error:")
     add("wt_missing_parent", "write_tool", {}, {"content": NEW}, target="sub/dir/x.oct.md")
     # the nearest existing ancestor is an EMPTY directory that was there before: a failed write must leave it in place
     empty_d = {"keep": {"dir": True, "mode": 0o750}, "other.txt": {"text": "x", "mode": 0o640}}
